@@ -127,6 +127,13 @@ def check(run, prog, tier):
     reboot_before_entries(cx, "S3", "announcer")
     atomic_notifications(cx, "S3", "stopped/unsubscribed")
 
+    # ------------------------------------------------------------------ S8 what the announcer queues is transmitted
+    # (offers, stop-offers and acknowledgements travel through the send collectors: the C15 rule set "queued entries are
+    # transmitted exactly once" is a link of the chain - a collector that swallows entries keeps the stacks apart for good)
+    from .C15 import queue_exactly_once
+    with run.part("S8 send collectors"):
+        queue_exactly_once(run, prog, tier, "S8")
+
     # ------------------------------------------------------------------ S7 start / stop of the stack reach every component
     e7 = engine(prog, NoInline())
     for mname, want in (("start", "start"), ("stop", "stop")):
